@@ -1277,7 +1277,15 @@ class Interp:
         if name == "iter":
             return lambda v: iter(I.iterate(v))
         if name == "sorted":
-            return lambda it, key=None, reverse=False: sorted(I.iterate(it), reverse=reverse)
+            def sorted_(it, key=None, reverse=False):
+                vals = list(I.iterate(it))
+                keys = vals if key is None else [I.call(key, [v], {}) for v in vals]
+                try:
+                    order = sorted(range(len(vals)), key=lambda i: keys[i], reverse=bool(reverse))
+                except TypeError as e:       # e.g. text compared with a number: the analysed program's own exception
+                    raise PyRaise("TypeError", None, str(e), where=I.stack[-1] if I.stack else "")
+                return [vals[i] for i in order]
+            return sorted_
         if name == "reversed":
             return lambda it: list(reversed(I.iterate(it)))
         if name == "getattr":
@@ -1917,6 +1925,8 @@ class Interp:
 
     def get_item(self, o, k, node):
         if isinstance(o, PyModel):
+            if not hasattr(o, "__getitem__"):
+                raise AnalysisAbort(f"subscripting a {type(o).__name__} is not modelled")
             return o.__getitem__(k)
         if isinstance(o, Obj):
             r = self.p.find_attr(o.cls, "__getitem__")
